@@ -177,6 +177,13 @@ func (s *Session) process() {
 		}
 		// 关闭连接
 		s.Close()
+		// Close 可能正在另一个 routine 中执行到一半（closed 已置位、数据通道尚未关闭），
+		// 下面把 dataChannel 置空之前必须保证它已被关闭
+		s.lockW.Lock()
+		if s.dataChannel != nil {
+			s.dataChannel.Close()
+		}
+		s.lockW.Unlock()
 
 		// 重置到初始状态
 		s.conn = nil
